@@ -74,6 +74,11 @@ CHECKS = [
   'level': 'T_n and A_n are the degree-N Taylor polynomials of the inverse distances (no differentiation: generating identities); the assembled Hamiltonians equal the closed forms with the library\'s c_n, which equal the geometric coefficients of the primaries in the library\'s local frame; '
            'the exact mapped energy minus the closed form is affine, and the Hamiltonian flow pushed through local2synodic is the CR3BP field, for L1..L5 and all mu, gamma.',
   'note': 'N <= 6 (8 thorough) of the 10 in the statement; uniqueness of the power-series square root and "vanishing Hessian => affine" are the trusted steps; remainder size is analysis outside the claim'},
+ {'id': 'C04',
+  'technique': 'symbolic execution of the libration services with mu, gamma symbolic; NRA queries (z3) for equilibrium <=> quintic, monotonicity and bracket sign changes (Brent by contract, path-exhaustive); characteristic-polynomial and normal-form identities on normal forms modulo the defining relations',
+  'level': 'For all mu in the stated range: the CR3BP field vanishes at x_k(gamma) iff the code\'s quintic vanishes; the root function is strictly monotone on each region (uniqueness, so ratio and position agree); the primary or fallback bracket always changes sign (also for the 19 catalogue ratios); '
+           'L4/L5 are exact equilibria; the local linear matrix has the characteristic polynomial of the CR3BP Jacobian; C^T J C = J and H2 o C is the diagonal normal form modulo the eigen-relations.',
+  'note': 'Brent/LAPACK behind contracts (convergence and mode selection outside); bracket obligation over mu in [1e-9, 1/2] as named by the property; triangular linear modes not encoded'},
 ]
 _BUILT = {c['id'] for c in CHECKS}
 NOT_APPLICABLE = [
